@@ -52,6 +52,7 @@ func c02Cases(tier string, seed int64) []core.Case {
 	for _, dotu := range []bool{false, true} {
 		dotu := dotu
 		cases = append(cases, core.Case{ID: "raw/" + dialect(dotu), Run: func(ctx *core.Ctx) core.Result { return c02Raw(ctx, dotu, nrand*20) }})
+		cases = append(cases, core.Case{ID: "header-grid/" + dialect(dotu), Run: func(ctx *core.Ctx) core.Result { return c02HeaderGrid(ctx, dotu) }})
 		cases = append(cases, core.Case{ID: "dirmut/" + dialect(dotu), Run: func(ctx *core.Ctx) core.Result { return c02Dir(ctx, dotu, nrand) }})
 	}
 	return cases
@@ -398,6 +399,46 @@ func c02Raw(ctx *core.Ctx, dotu bool, n int) core.Result {
 		}
 		s.kind, s.off = "raw", i
 		s.judge(x)
+	}
+	return s.res
+}
+
+// c02HeaderGrid: every type byte 0..255 x every declared size 0..48 (and the buffer exactly that long, longer, and one
+// byte short), body bytes all-zero, all-0xFF and a counting pattern: the undefined type bytes inside the numeric range
+// of defined ones (Terror) and the header-only frames are all in here.
+func c02HeaderGrid(ctx *core.Ctx, dotu bool) core.Result {
+	s := newC02(ctx, dotu)
+	for t := 0; t < 256; t++ {
+		for size := 0; size <= 48; size++ {
+			for fill := 0; fill < 3; fill++ {
+				for _, extra := range []int{0, 5, -1} {
+					l := size + extra
+					if l < 0 {
+						continue
+					}
+					x := make([]byte, l)
+					for i := range x {
+						switch fill {
+						case 1:
+							x[i] = 0xFF
+						case 2:
+							x[i] = byte(i)
+						}
+					}
+					if l >= 4 {
+						x[0], x[1], x[2], x[3] = byte(size), 0, 0, 0
+					}
+					if l >= 5 {
+						x[4] = byte(t)
+					}
+					if l >= 7 {
+						x[5], x[6] = 1, 0
+					}
+					s.kind, s.off = "header-grid", t
+					s.judge(x)
+				}
+			}
+		}
 	}
 	return s.res
 }
